@@ -3,6 +3,7 @@ import T4V.Proofs.PostClosed
 import T4V.Proofs.CompileClosed
 import T4V.Proofs.PostKeys
 import T4V.Model.Post
+import T4V.Proofs.MonitorFast
 /-!
 # Property C01 — every point stays in the volume of the cell that owns it (Boolean core)
 
@@ -164,5 +165,14 @@ theorem loop_then_post (env : CEnv) (σ : TSense) (cv : Nat → Bool) (hE : EnvO
   | some v =>
     simp only [hd] at hg
     exact (postProcess_preserves dedup surfs u st'.vols σ hkn hcl hσu hσeq c v (cv c) hd hg.1 hg.2).2
+
+/-- (m) The point monitor that the checks of C01, C03–C07, C09 run on the converter's written file tabulates, per
+point, the senses of all surfaces and the volumes by number (hash tables) and evaluates every non-virtual volume once
+(`T4File.verdicts`), instead of searching the surface and volume lists at every reference: the owners and the
+undecidable volumes it reads off are exactly those of the specification (`T4File.owners`, `T4File.undecided`), for
+every file — duplicate surface or volume numbers included — and every point. -/
+theorem monitor_owners_are_spec_owners (f : T4File Float) (p : V3 Float) :
+    ownersOf (f.verdicts p) = f.owners p ∧ undecidedOf (f.verdicts p) = f.undecided p :=
+  ⟨MonitorFast.ownersOf_verdicts f p, MonitorFast.undecidedOf_verdicts f p⟩
 
 end T4V.C01
